@@ -209,13 +209,18 @@ impl Storage {
                                 .map_err(map_random_access_err)?;
                         }
                     } else {
-                        storage
+                        match storage
                             .del(
                                 info.index,
                                 info.length.expect("When deleting, length must be given"),
                             )
                             .await
-                            .map_err(map_random_access_err)?;
+                        {
+                            // The range starts beyond the end of the store (the tail was
+                            // already removed by an earlier delete): nothing left to delete.
+                            Err(RandomAccessError::OutOfBounds { .. }) => {}
+                            other => other.map_err(map_random_access_err)?,
+                        }
                     }
                 }
                 StoreInfoType::Size => {
